@@ -3,9 +3,16 @@
   recipient) pair has exactly one token (waiting for keys at the sender / on its way / parked / asked for again /
   shown), and every showing has exactly one delivery receipt (on its way back / handed to the sender's application).
   At a settled state (all queues empty, nothing pending) all tokens are showings and all receipts have arrived.
+
+  The proofs are in Lemmas/E2ETok*.lean: the Prop-valued invariant `TInv` (E2ETokInv) over the functional view of a
+  state (E2ETokBase), the two master lemmas for a client step and a server step (E2ETokStep), one file per kind of step
+  (E2ETokServer, E2ETokAppSend, E2ETokIq, E2ETokRcpt, E2ETokDeliver, E2ETokRestart), the induction (E2ETokRun) and the
+  implication `TInv → tokInv` (E2ETokBool).
 -/
 import YowsupVerif.Lemmas.E2E
 import YowsupVerif.Model.E2ETok
+import YowsupVerif.Lemmas.E2ETokBool
+import YowsupVerif.Lemmas.E2ETokQKeys
 namespace Yow.E2E
 
 def sendCount : List Act → Nat
@@ -13,12 +20,21 @@ def sendCount : List Act → Nat
   | .appSend _ _ :: as => sendCount as + 1
   | _ :: as => sendCount as
 
-/-- the conservation invariant holds after every fault-free allowed run with at most 100 messages (the sent queue's capacity) -/
+theorem sendCount_eq (acts : List Act) : sendCount acts = sendCountAux acts := by
+  induction acts with
+  | nil => rfl
+  | cons a as ih => cases a <;> simp [sendCount, sendCountAux, ih]
+
+/-- the conservation invariant holds after every fault-free allowed run with at most 100 messages (the sent queue's
+    capacity).  `hnd`: a group lists each member once (otherwise the server's fan-out queues two copies for it). -/
 theorem tokInv_run (accts : List Acct) (groups : List (Nat × List Acct)) (hw : WFConfig accts groups)
     (hnd : ∀ g ∈ groups, g.2.Nodup)
     (acts : List Act) (ha : AllowedRun (initSys accts groups) acts = true) (hf : NoFault acts = true) (hn : sendCount acts ≤ 100) :
-    tokInv (run (initSys accts groups) acts) = true := by
-  sorry
+    tokInv (run (initSys accts groups) acts) = true :=
+  tinv_tokInv hw.1 (TInv_run hw hnd acts (initSys accts groups) (init_TInv hw) ha hf (by
+    show ([] : List (Acct × Node)).length + sendCountAux acts ≤ 100
+    rw [← sendCount_eq]
+    simpa using hn))
 
 theorem tokInv_conserved {s : Sys} (h : tokInv s = true) : conserved s = true := by
   simp only [tokInv, Bool.and_eq_true] at h
@@ -26,7 +42,8 @@ theorem tokInv_conserved {s : Sys} (h : tokInv s = true) : conserved s = true :=
 
 /-- nothing can be stuck: when all queues are empty, no continuation is waiting and nothing is parked -/
 theorem quiescent_settled (s : Sys) (hi : tokInv s = true) (hq : quiescent s = true) : settled s = true := by
-  sorry
+  simp only [tokInv, Bool.and_eq_true] at hi
+  exact quiescent_settled' s hi.1.1.1.1.1.1.1.1.2 hq
 
 /-- at a settled state conservation means: shown exactly once, and the sender's application holds the delivery receipt -/
 theorem settled_exactly_once (s : Sys) (hi : tokInv s = true) (hs : settled s = true) :
@@ -34,19 +51,20 @@ theorem settled_exactly_once (s : Sys) (hi : tokInv s = true) (hs : settled s = 
       shownCount s r n.id = 1 ∧
       ((getClient s a).receipts.filter (fun e =>
         e.1 == n.id && e.2.2.2 == RType.delivery && (e.2.2.1 == some r || (e.2.2.1.isNone && e.2.1 == Dest.user r)))).length = 1 := by
-  sorry
+  simp only [tokInv, Bool.and_eq_true] at hi
+  exact settled_exactly_once' s hi.1.1.1.1.1.1.1.1.1.1 hi.1.1.1.1.1.1.1.1.1.2 hs
 
 /-- the queues of a run from the initial state hold each account at most once -/
 theorem queueKeys_run (accts : List Acct) (groups : List (Nat × List Acct)) (acts : List Act) :
     let s := run (initSys accts groups) acts
-    (s.inbound.map Prod.fst).Nodup ∧ (s.outbound.map Prod.fst).Nodup := by
-  sorry
+    (s.inbound.map Prod.fst).Nodup ∧ (s.outbound.map Prod.fst).Nodup :=
+  QKeys.run acts _ (QKeys.init accts groups)
 
 /-- a run that is not settled can always go on: some server action is enabled (so a fair scheduler reaches a settled state
     or runs for ever).  `hk`: without it a shadowed duplicate key with a non-empty queue would be a counterexample. -/
 theorem not_quiescent_enabled (s : Sys) (hk : (s.inbound.map Prod.fst).Nodup ∧ (s.outbound.map Prod.fst).Nodup)
     (h : quiescent s = false) :
-    ∃ a, Allowed s (.process a) = true ∨ Allowed s (.deliver a .none) = true := by
-  sorry
+    ∃ a, Allowed s (.process a) = true ∨ Allowed s (.deliver a .none) = true :=
+  not_quiescent_enabled' s hk h
 
 end Yow.E2E
